@@ -77,7 +77,7 @@ def determinism_selftest(prop, base_seed, n=12):
     mismatches = [(p, i) for p, i, a, b in digests if a != b]
     env = dict(os.environ)
     env['PYTHONHASHSEED'] = '4242'
-    spec = json.dumps({'prop': prop, 'base_seed': base_seed, 'sample': [(p, i) for p, i, _, _ in digests]})
+    spec = json.dumps({'prop': prop, 'base_seed': base_seed, 'sample': [(p, i, x) for p, i, x in sample]})
     pr = subprocess.run([sys.executable, '-B', '-m', 'sim.cli', 'digests', spec], cwd=VERIF, env=env,
                         capture_output=True, text=True, timeout=900)
     try:
@@ -93,8 +93,8 @@ def determinism_selftest(prop, base_seed, n=12):
 def cmd_digests(spec):
     spec = json.loads(spec)
     out = []
-    for p, i in spec['sample']:
-        plan = checks.make_plan(spec['prop'], p, spec['base_seed'], i, None)
+    for p, i, x in spec['sample']:
+        plan = checks.make_plan(spec['prop'], p, spec['base_seed'], i, x)
         out.append(runner.run_plan(plan, [spec['prop']])['digest'])
     print(json.dumps(out))
 
